@@ -352,10 +352,10 @@ func propSpecs() map[string]*PropSpec {
 	})
 	add(&PropSpec{
 		ID: "C03", Title: "joins combine the pipeline so far with the right-hand pipeline",
-		Quick:    []RunSpec{big("H_C03", 1, 3, 3, 4), big("H_C03", 2, 1, 1, 1), big("H_C03two", 0, 1), big("H_C03two", 1, 1), big("H_C03two", 2, 1), big("H_C03two", 3, 1), big("H_C03two", 4, 1), big("H_C03two", 5, 1), big("H_C03two", 6, 1), big("H_C03two", 7, 1)},
-		Thorough: []RunSpec{big("H_C03", 1, 5, 5, 7), big("H_C03", 2, 2, 2, 2), big("H_C03two", 0, 2), big("H_C03two", 1, 2), big("H_C03two", 2, 1), big("H_C03two", 3, 1), big("H_C03two", 4, 2), big("H_C03two", 5, 1), big("H_C03two", 6, 1), big("H_C03two", 7, 1), big("H_C03two", 8, 1)},
+		Quick:    []RunSpec{big("H_C03", 1, 3, 3, 4), big("H_C03", 2, 1, 1, 1), big("H_C03pre", 2), big("H_C03two", 0, 1), big("H_C03two", 1, 1), big("H_C03two", 2, 1), big("H_C03two", 3, 1), big("H_C03two", 4, 1), big("H_C03two", 5, 1), big("H_C03two", 6, 1), big("H_C03two", 7, 1)},
+		Thorough: []RunSpec{big("H_C03", 1, 8, 5, 7), big("H_C03", 2, 2, 2, 2), big("H_C03pre", 2), big("H_C03", 2, 8, 1, 1), big("H_C03two", 0, 2), big("H_C03two", 1, 2), big("H_C03two", 2, 1), big("H_C03two", 3, 1), big("H_C03two", 4, 2), big("H_C03two", 5, 1), big("H_C03two", 6, 1), big("H_C03two", 7, 1), big("H_C03two", 8, 1)},
 		Covers:   []string{"compiled", "results-compared", "non-empty-result", "join-checked"},
-		Bounds: map[string]string{"quick": "one join: 4 kinds (default, inner, innerunique, leftouter) x 6 condition forms (bare key, explicit equality on the key and on other columns, two conditions, non-equi, key plus one-sided filter) x 3 left prefixes x 3 right-hand pipelines x 4 following operators on all tables A(k,a), B(k,b) of 1 row, and the plain join on all 2-row tables; two joins in sequence and nested in the right-hand side, all 16 kind combinations, 1-row tables (+ C(k,c)); three joins in sequence and nested three deep, all 64 kind combinations, 1-row tables (+ D(k,d))",
+		Bounds: map[string]string{"quick": "one join: 4 kinds (default, inner, innerunique, leftouter) x 9 condition forms (bare key, explicit equality on the key and on other columns, two conditions, non-equi, key plus one-sided filter, right-side-first comparisons with every ordering operator) x 3 left prefixes x 3 right-hand pipelines x 4 following operators on all tables A(k,a), B(k,b) of 1 row, and the join after each of 8 left prefixes (filter, take, sort, extend, top, sort+take, filter+top) on all 2-row tables; two joins in sequence and nested in the right-hand side, all 16 kind combinations, 1-row tables (+ C(k,c)); three joins in sequence and nested three deep, all 64 kind combinations, 1-row tables (+ D(k,d))",
 			"thorough": "5 prefixes x 5 right pipelines x 7 following operators on 1-row tables; 2x2x2 variants on 2-row tables; two-join shapes on 2-row tables; a third three-join shape (nested + sequential with count)"},
 		Outside: []string{"ClickHouse's executor and join_use_nulls: unmatched left rows carry NULL in the right columns on both sides of the comparison", "quoted bare key names", "more than three joins"},
 		Stubs:   []string{"nothing stubbed in the code under test"},
